@@ -113,6 +113,33 @@ def okF (reent : Bool) (T : Table) : Nat → Nat → Bool
   | 0, _ => false
   | f + 1, j => chkBody reent (freeF T f) (okF reent T f) 0 (T.body j) == some 0
 
+/-! ### finding a concrete path (used for witnesses and non-vacuity examples, independent of method order) -/
+
+/-- all ways to run `body` consuming a prefix of `evs` (callbacks skipped, calls taken through `callee` or skipped):
+    the list of what is left of `evs` -/
+def matchBody (callee : Nat → List Ev → List (List Ev)) : List Instr → List Ev → List (List Ev)
+  | [], evs => [evs]
+  | .acq :: r, evs =>
+    match evs with
+    | .acq :: e => matchBody callee r e
+    | _ => []
+  | .rel :: r, evs =>
+    match evs with
+    | .rel :: e => matchBody callee r e
+    | _ => []
+  | .cb :: r, evs => matchBody callee r evs
+  | .call j :: r, evs => matchBody callee r evs ++ (callee j evs).flatMap (matchBody callee r)
+
+def matchF (T : Table) : Nat → Nat → List Ev → List (List Ev)
+  | 0, _, _ => []
+  | f + 1, j, evs => matchBody (matchF T f) (T.body j) evs
+
+/-- index of the method called `name` (the table's length if there is none) -/
+def Table.idx (T : Table) (name : String) : Nat := T.findIdx (fun m => m.1 == name)
+
+/-- `evs` is the lock-event sequence of some path through the method called `name` -/
+def hasPath (T : Table) (name : String) (evs : List Ev) : Bool := (matchF T (T.length + 1) (T.idx name) evs).contains []
+
 def reentOf : LockKind → Option Bool
   | .lock => some false
   | .rlock => some true
